@@ -3,6 +3,7 @@ import ClusterVerif.Lemmas.C02Compose
 import ClusterVerif.Lemmas.C02Ctx
 import ClusterVerif.Model.C02Source
 import ClusterVerif.Gen.C02
+import ClusterVerif.Model.C02Hooks
 
 /-!
 # C02 — CRDT: replicas converge; batching neither loses nor reorders operations
@@ -760,6 +761,209 @@ theorem gen_log_select : Gen.logPinSelect = ["send css.batchItemCh", "default"] 
     Gen.logUnpinSelect = ["send css.batchItemCh", "default"] := ⟨rfl, rfl⟩
 
 end CallerContext
+
+/-! ## Round 8b: hooks → tracker hand-off, batching configuration, shutdown (`Model/C02Hooks.lean`) -/
+section HooksCfg
+open Hk
+
+/-- the PutHook regenerated from `setup()` (go/ast shape, interpreted) IS the model's `putHook`, for every raw key
+    and value: `Track` gets the pin decoded from the value; an undecodable value reaches nobody -/
+theorem gen_put_hook_is_model (k : RKey) (v : RVal) :
+    runHook Gen.putHookShape k (some v) = some (putHook k v) := by
+  cases k <;> cases v <;> rfl
+
+/-- the DeleteHook regenerated from `setup()` IS the model's `delHook`: `Untrack(PinCid(c))` for a cid key,
+    nothing for a key that is not base32 or not a cid -/
+theorem gen_delete_hook_is_model (k : RKey) : runHook Gen.deleteHookShape k none = some (delHook k) := by
+  cases k <;> rfl
+
+example : runHook Gen.putHookShape (.cidKey 3) (some (.pin (some 3) 7)) = some [.track (some 3) 7] := by decide
+example : runHook Gen.deleteHookShape (.notCid 1) none = some [] := by decide
+/-- a PutHook that forgets the `return` after a failed decode is not understood (fail-closed) -/
+example : runHook [.unmarshalVal, .logOnErr, .callTrack] (.cidKey 0) (some (.garbage 0)) = none := by decide
+
+theorem trackerCalls_append (enc : Enc) (a b : List Hook) :
+    trackerCalls enc (a ++ b) = trackerCalls enc a ++ trackerCalls enc b := by
+  induction a with
+  | nil => rfl
+  | cons h t ih => cases h <;> simp [trackerCalls, ih]
+
+/-- **hand-off**: every hook invocation that concerns an entry as `State.Add/Rm` write it (cid key; value
+    decodable and carrying the key's cid) produces exactly the tracker call the property asks for — `Track`
+    with the key's cid and the value's content, `Untrack` with the key's cid — wherever it stands in the
+    sequence of hooks of a merge, a batch or a whole walk -/
+theorem tracker_gets_every_hook (enc : Enc) (hs : List Hook) (h : Hook) (hin : h ∈ hs)
+    (hwf : wfHook enc h = true) : ∃ c, wantCall enc h = some c ∧ c ∈ trackerCalls enc hs := by
+  induction hs with
+  | nil => cases hin
+  | cons x t ih =>
+    rcases List.mem_cons.1 hin with rfl | hin'
+    · cases h with
+      | put k v =>
+        simp only [wfHook] at hwf
+        cases hk : enc.key k <;> cases hv : enc.val v <;> simp [hk, hv] at hwf
+        rename_i c c' n
+        cases c' with
+        | none => simp at hwf
+        | some c' =>
+          simp at hwf
+          subst hwf
+          exact ⟨.track (some c) n, by simp [wantCall, hk, hv], by simp [trackerCalls, putHook, hv]⟩
+      | del k =>
+        simp only [wfHook] at hwf
+        cases hk : enc.key k <;> simp [hk, cidOfKey] at hwf
+        rename_i c
+        exact ⟨.untrack c, by simp [wantCall, hk, cidOfKey], by simp [trackerCalls, delHook, hk]⟩
+    · obtain ⟨c, h1, h2⟩ := ih hin'
+      refine ⟨c, h1, ?_⟩
+      cases x <;> simp [trackerCalls, h2]
+
+/-- **every change is handed to the tracker** (composition with `hooks_cover_changes_or_revival`): after any
+    merge, a key whose entry changed and whose hook concerns a well-formed entry got the tracker call saying
+    what the pinset now holds (`Track(cid, content)` / `Untrack(cid)`) — or it is the revival case (K05c) -/
+theorem tracker_informed_of_change (enc : Enc) (r : Rep) (d : Delta) (k : Key)
+    (hch : r.viewAt k ≠ (r.merge d).1.viewAt k)
+    (hwf : wfHook enc (hookFor ((r.merge d).1.viewAt k) k) = true) :
+    (∃ c, wantCall enc (hookFor ((r.merge d).1.viewAt k) k) = some c ∧ c ∈ trackerCalls enc (r.merge d).2) ∨
+    (r.viewAt k = none ∧ (r.vals.lookup k).isSome = true ∧ (r.merge d).1.viewAt k = some (r.prioVal k).2) := by
+  rcases hooks_cover_changes_or_revival r d k hch with h | h
+  · exact Or.inl (tracker_gets_every_hook enc _ _ h hwf)
+  · exact Or.inr h
+
+example : wfHook ⟨fun k => .cidKey k, fun v => .pin (some (v / 10)) (v % 10)⟩ (.put 2 27) = true := by decide
+
+/-- what the property would want of ANY entry that `State.List` shows: the tracker was told about the cid
+    the pinset lists -/
+def track_matches_list_full : Prop :=
+  ∀ (k : RKey) (v : RVal) (c n : Nat), listEntry k v = some (c, n) → Call.track (some c) n ∈ putHook k v
+
+/-- **false as the code is**: `Track` carries the cid stored INSIDE the value while `List` shows the cid of the
+    KEY; an entry whose value carries another cid (or none that casts) is listed under one cid and tracked
+    under another. `State.Add` never writes one (`st.key(c.Cid)`, `serializePin(c)`), a foreign writer can. -/
+theorem track_matches_list_full_fails : ¬ track_matches_list_full := by
+  intro h
+  have := h (.cidKey 0) (.pin (some 1) 5) 0 5 rfl
+  simp [putHook] at this
+
+/-- … and it holds for every entry whose value carries the key's cid -/
+theorem track_matches_list_partial (c n : Nat) (k : RKey) (v : RVal)
+    (hk : k = .cidKey c) (hv : v = .pin (some c) n) :
+    listEntry k v = some (c, n) ∧ putHook k v = [.track (some c) n] := by
+  subst hk; subst hv; exact ⟨rfl, rfl⟩
+
+/-- a value that does not decode is neither listed nor tracked; a delete of a key absent from the store
+    changes nothing and calls nobody; a foreign key is never listed -/
+theorem undecodable_neither_listed_nor_tracked (k : RKey) (n : Nat) :
+    listEntry k (.garbage n) = none ∧ putHook k (.garbage n) = [] := by
+  cases k <;> exact ⟨rfl, rfl⟩
+
+theorem delete_absent_no_effect (s : RStore) (k : RKey) (h : s.any (fun e => e.1 == k) = false) :
+    rawStep s (.del k) = (s, []) := by
+  simp [rawStep, h]
+
+/-- every local raw write: what `List` shows for a cid afterwards and what the tracker got agree whenever the
+    written entry is well-formed (`put (cidKey c) (pin (some c) n)`: head of the list, `Track(c, n)`) -/
+theorem raw_put_listed_and_tracked (s : RStore) (c n : Nat) :
+    (rawStep s (.put (.cidKey c) (.pin (some c) n))).2 = [.track (some c) n] ∧
+    (c, n) ∈ rawList (rawStep s (.put (.cidKey c) (.pin (some c) n))).1 := by
+  simp [rawStep, rawList, putHook, listEntry]
+
+/-! ### batching configuration -/
+
+/-- `Config.batchingEnabled` regenerated (conjuncts, operators, constants) IS `BCfg.enabled`, for every configuration -/
+theorem gen_batching_enabled_is_model (c : BCfg) : evalConj c Gen.batchingEnabledConj = some c.enabled := by
+  simp [Gen.batchingEnabledConj, evalConj, evalCmp, BCfg.get, BCfg.enabled]
+
+/-- the batching arm of `Config.Validate` regenerated IS `BCfg.valid` -/
+theorem gen_validate_batching_is_model (c : BCfg) : evalArms c Gen.validateBatchingArms = some c.valid := by
+  simp [Gen.validateBatchingArms, evalArms, evalCmp, BCfg.get, BCfg.valid]
+
+/-- **every configuration** is either "batching disabled" (size ≤ 0 or age ≤ 0: LogPin/LogUnpin write directly,
+    `St.direct`) or a worker configuration with size limit ≥ 1 — and, when `Validate` accepted it, a queue of
+    capacity ≥ 1 -/
+theorem cfg_mode_dichotomy (c : BCfg) :
+    (c.mode = none ∧ (c.size ≤ 0 ∨ c.age ≤ 0)) ∨
+    (∃ m, c.mode = some m ∧ 1 ≤ m.maxSize ∧ 0 < c.age ∧ (c.valid = true → 1 ≤ m.qcap)) := by
+  by_cases h1 : 0 < c.size
+  · by_cases h2 : 0 < c.age
+    · right
+      refine ⟨⟨c.size.toNat, c.queue.toNat⟩, by simp [BCfg.mode, BCfg.enabled, h1, h2], ?_, h2, ?_⟩
+      · show 1 ≤ c.size.toNat
+        omega
+      · intro hv
+        simp [BCfg.valid] at hv
+        show 1 ≤ c.queue.toNat
+        omega
+    · left
+      exact ⟨by simp [BCfg.mode, BCfg.enabled, h2], Or.inr (by omega)⟩
+  · left
+    exact ⟨by simp [BCfg.mode, BCfg.enabled, h1], Or.inl (by omega)⟩
+
+/-- in every valid configuration with batching enabled (degenerate ones included: size 1, age 1 ns, queue 1) an
+    operation submitted to an empty queue is ACCEPTED: no valid configuration refuses everything -/
+theorem valid_cfg_accepts_on_empty_queue (c : BCfg) (m : Cfg) (hv : c.valid = true) (hm : c.mode = some m)
+    (s : St) (hq : s.queue = []) (o : BOp) :
+    step m s (.log o) = some ({ s with queue := [o] }, .accepted) := by
+  rcases cfg_mode_dichotomy c with ⟨h, _⟩ | ⟨m', h, _, _, hc⟩
+  · rw [h] at hm; cases hm
+  · rw [h] at hm; cases hm
+    have := hc hv
+    simp [step, hq]; omega
+
+/-- `LoadJSON`: an omitted / empty `max_batch_age` (or a zero one) disables batching WHATEVER the size; a zero or
+    omitted `max_queue_size` becomes the default and is valid; a negative one is refused by `Validate` -/
+theorem loadJSON_cases (size : Int) (age : Option Int) (queue : Int) :
+    ((age = none ∨ age = some 0) → (loadJSON size age queue).enabled = false) ∧
+    (queue = 0 → (loadJSON size age queue).valid = true) ∧
+    (queue < 0 → (loadJSON size age queue).valid = false) := by
+  refine ⟨?_, ?_, ?_⟩
+  · rintro (rfl | rfl) <;> simp [loadJSON, BCfg.enabled]
+  · rintro rfl; simp [loadJSON, BCfg.valid, defaultQueue]
+  · intro h
+    have hq : queue ≠ 0 := by omega
+    simp [loadJSON, BCfg.valid, hq]; omega
+
+example : (loadJSON 1 (some 1) 1).mode = some ⟨1, 1⟩ := by decide
+example : (loadJSON 5 none 0).mode = none := by decide
+
+/-! ### shutdown -/
+
+/-- "accepted ⇒ committed, also across `Shutdown`" -/
+def accepted_committed_across_shutdown : Prop :=
+  ∀ (cfg : Cfg) (evs : List Ev) (s : St) (rs : List Res), run cfg {} evs = some (s, rs) →
+    (∀ e ∈ evs, Ev.benign e = true) →
+    ∀ k, (shutdown s).rep.viewAt k = (replay (acceptedOps evs rs) []).get k
+
+/-- **false as the code is**: the worker leaves through `<-css.ctx.Done()` without a final flush, so an accepted
+    operation still queued (or taken into an uncommitted batch) at `Shutdown` never lands. The property's
+    commit clause ("committed when the batch reaches its size limit or its age limit") does not cover it:
+    recorded as an observation in notes/C02.md. -/
+theorem accepted_committed_across_shutdown_fails : ¬ accepted_committed_across_shutdown := by
+  intro h
+  have := h ⟨2, 5⟩ [.log (.put 0 5)] _ _ rfl (by decide) 0
+  revert this
+  decide
+
+/-- a shutdown after the queue was drained and the batch committed loses nothing -/
+theorem shutdown_after_flush_loses_nothing (s : St) (hq : s.queue = []) (hp : s.pend = {}) :
+    (shutdown s).rep = s.rep ∧ (shutdown s).queue = s.queue ∧ (shutdown s).pend = s.pend := by
+  simp [shutdown, hq, hp]
+
+/-- **what a Shutdown can lose is a SUFFIX of the accepted operations**: in every run of the composed replica (any
+    interleaving, commits failing any number of times, remote walks anywhere) the operations of the committed
+    batches are a prefix of the accepted ones, in submission order, and they are exactly what the delta stream
+    carries; `Shutdown` drops the rest (open batch ++ queue) and leaves replica and stream as they are — no hole,
+    no reordering across a shutdown -/
+theorem shutdown_loses_only_a_suffix (cfg : Cfg) (me : Who) (evs : List CEv) (c : CSt) (rs : List Res)
+    (hr : crun cfg { me := me } evs = some (c, rs)) (hne : ∀ e ∈ evs, e ≠ CEv.loc (.take false)) :
+    cAccepted evs rs = (cshutdown c).done.flatten ++ (c.batch ++ c.queue) ∧
+    (cshutdown c).out.map (·.elems) = (cshutdown c).done.map elemsOf ∧
+    (cshutdown c).rep = c.rep ∧ (cshutdown c).out = c.out ∧
+    (cshutdown c).queue = [] ∧ (cshutdown c).batch = [] := by
+  obtain ⟨h1, h2, _⟩ := local_order_preserved cfg me evs c rs hr hne
+  exact ⟨by simpa [cshutdown, List.append_assoc] using h1, by simpa [cshutdown] using h2, rfl, rfl, rfl, rfl⟩
+
+end HooksCfg
 
 /-! ### The anchored functions still read as the model was transcribed (regenerated from /repo on every run) -/
 
